@@ -876,3 +876,75 @@ pub fn idioms(ev: Ev) -> Vec<String> {
     out.dedup();
     out
 }
+
+/// Every one-argument function (and the root / log / power shapes) on integers that an "exact result" fast path would
+/// single out: perfect squares, cubes, powers of two and of ten beyond 2^53, and their neighbours one above and below
+/// (an integer square root that is right on squares can still loop or err on k^2 - 1).
+pub fn special_integers(ev: Ev) -> Vec<String> {
+    let mut vals: Vec<i128> = Vec::new();
+    for k in [1i128 << 27, (1 << 27) + 1, 1 << 28, 1 << 29, 1 << 30, (1 << 30) + 7, 1 << 31, 94906266, 94906267, 100000000, 1000000000, 3037000499, 2147483647, 123456789] {
+        vals.extend([k * k - 1, k * k, k * k + 1]);
+    }
+    for k in [1i128 << 18, 1 << 19, 1 << 20, 2097151, 1000000, 208063, 1234567] {
+        vals.extend([k * k * k - 1, k * k * k, k * k * k + 1]);
+    }
+    for e in 53..=62u32 {
+        vals.extend([(1i128 << e) - 1, 1i128 << e, (1i128 << e) + 1]);
+    }
+    for e in 16..=18u32 {
+        let p = 10i128.pow(e);
+        vals.extend([p - 1, p, p + 1]);
+    }
+    vals.extend([2432902008176640000 - 1, 2432902008176640000, 2432902008176640000 + 1, i64::MAX as i128 - 1, i64::MAX as i128]);
+    vals.retain(|v| *v <= i64::MAX as i128);
+    vals.sort();
+    vals.dedup();
+    let mut out = Vec::new();
+    let mut seen: Vec<&str> = Vec::new();
+    for (name, f) in func_names(ev) {
+        if seen.contains(name) {
+            continue;
+        }
+        seen.push(name);
+        if let Arity::Fixed(1) = f.arity() {
+            for v in &vals {
+                out.push(format!("{}({})", name, v));
+                out.push(format!("{}(-{})", name, v));
+            }
+        }
+    }
+    for v in &vals {
+        for t in ["root(2,{})", "root(3,{})", "root(4,{})", "pow({},0.5)", "{}^0.5", "{}^(1/2)", "{}^(1/3)", "log({},2)", "log({},10)", "log({},4)", "pow({},2)", "{}^2", "{}²", "{}%1000", "{}/3", "{}*3", "min({},{}.0)", "max({},{}.0)", "med({})", "avg({})", "{}-{}.0"] {
+            out.push(t.replace("{}", &v.to_string()));
+        }
+    }
+    out
+}
+
+/// Plausible function names and constants that no evaluator offers (synonyms, long forms, names from other calculators
+/// and from libm): each must be rejected in every calling shape — a keyword table that quietly grew an alias is wrong on
+/// exactly one word. Names that the evaluator does offer are left out.
+pub fn plausible_names(ev: Ev) -> Vec<String> {
+    let names = [
+        "average", "mean", "minimum", "maximum", "sum", "product", "prod", "count", "len", "absolute", "fabs", "sqr", "square", "cube", "cbrt", "hypot", "log10", "log2", "ln1p", "log1p", "expm1", "exp10",
+        "ceiling", "roundup", "rounddown", "int", "frac", "fract", "sec", "csc", "cot", "asec", "acsc", "acot", "sech", "csch", "coth", "arcsin", "arccos", "arctan", "arcsinh", "arccosh", "arctanh", "arsin", "arcos",
+        "artan", "arsec", "tg", "ctg", "arctg", "sgnum", "signof", "neg", "negate", "inv", "recip", "rem", "remainder", "fmod", "modulo", "div", "quot", "gamma", "lgamma", "tgamma", "factorial", "fact", "fib",
+        "binom", "ncr", "npr", "choose", "comb", "perm", "deg", "degrees", "radians", "todeg", "torad", "rand", "random", "tau", "phi", "inf", "infinity", "nan", "euler", "lambert", "lambertw", "productlog", "w0", "wm1",
+        "erf", "erfc", "sinc", "clamp", "lerp", "mode", "var", "variance", "std", "stddev", "stdev", "norm", "arg", "angle", "phase", "conj", "re", "im", "real", "imag", "polar", "cis", "gcf", "hcf", "lcd", "bitand",
+        "bitor", "xor", "bitxor", "not", "shl", "shr", "and", "or", "true", "false", "if", "total", "power", "nthroot", "nroot", "logb", "lg", "ld", "fix", "rint", "nearbyint", "isqrt", "ipow", "ilog2", "ilog10", "mag",
+        "ans", "x", "y", "z", "a", "b", "c", "n", "t", "j", "exp1", "log_2", "sqrt2", "root2", "root3", "mid", "middle", "avrg", "avge", "medium", "mediane", "truncat", "truncated", "rounded", "floored", "ceil2",
+        "sinus", "cosinus", "tangent", "sine", "cosine", "asinus", "sinh2", "atan3", "atan1", "pow2", "pow10", "powr", "sqroot", "squareroot", "lnx", "logn", "loge", "log_e", "exp2x", "gcd2", "lcm2", "ggt", "kgv",
+        "pgcd", "ppcm", "mcd", "mcm", "signe", "signum2", "abs2", "absval", "modulus", "PI", "Pi", "E", "Sin", "SIN", "Abs", "ABS", "Sqrt", "SQRT", "Min", "MAX", "Avg", "AVG", "Floor", "Rad", "RAD", "Deg", "I",
+    ];
+    let offered: Vec<&str> = func_names(ev).iter().map(|(n, _)| *n).collect();
+    let mut out = Vec::new();
+    for n in names {
+        if offered.contains(&n) || ["pi", "e", "w", "rad"].contains(&n) || (ev == Ev::Cpx && n == "i") {
+            continue;
+        }
+        for t in ["{}(1)", "{}(1,2)", "{}(1,2,3)", "{}()", "{}", "2{}(3)", "{}1", "1+{}(2)", "{}(@)", "(2){}", "{}(1)+1", "-{}(4)"] {
+            out.push(t.replace("{}", n));
+        }
+    }
+    out
+}
